@@ -808,6 +808,80 @@ def t2_real_specials(ctx: Ctx):
 
 
 # ----------------------------------------------------------------------
+# C02.G1 the two MPFR engine methods that answer through a helper (GMP_HELPERS)
+
+def g1_helper_methods(ctx: Ctx):
+    """`_mod` needs floor(x / y) exactly: the quotient is evaluated down to the units digit whatever the target context
+    is (a quotient kept to the target's precision loses its low integer digits when x / y is large), and the remainder
+    x - q * y is then exact Float arithmetic.  `_fdim` is one MPFR subtraction at the target's (prec, n) or a constant."""
+    q = 'MPFREngine._mod'
+    fn = ctx.fn(GMP, q)
+    x, y = [a.arg for a in fn.args.args][1:3]
+    evals = [k for k in calls_in(fn) if call_name(k) in ('_mpfr_eval', 'mpfr_call', '_mpfr_constant')]
+    floors = [k for k in calls_in(fn) if call_name(k) in ('math.floor', 'floor')]
+    good = len(evals) == 1 and len(floors) == 1 and floors[0].args and floors[0].args[0] is evals[0]
+    ctx.check(good, GMP, fn, q, 'the quotient is one round-to-odd division, consumed by floor', f'evaluations {[norm(k) for k in evals]}, floors {[norm(k) for k in floors]}')
+    if evals:
+        k = evals[0]
+        pos = kwarg(k, 'n')
+        if isinstance(pos, ast.UnaryOp) and isinstance(pos.op, ast.USub) and isinstance(pos.operand, ast.Constant):
+            nval = -pos.operand.value
+        elif isinstance(pos, ast.Constant):
+            nval = pos.value
+        else:
+            nval = None
+        prec = kwarg(k, 'prec')
+        good = call_name(k) == '_mpfr_eval' and [dotted(a) for a in k.args] == ['gmp.div', x, y] and isinstance(nval, int) and nval <= -1 \
+            and (prec is None or (isinstance(prec, ast.Constant) and prec.value is None))
+        ctx.check(good, GMP, k, q, 'x / y is kept down to the units digit (n <= -1, no precision cap) whatever the target context',
+                  f'got {norm(k)}: a quotient rounded to the target precision drops low integer digits, floor() of it is not floor(x / y)')
+    rets = [s for s in walk_no_nested(fn) if isinstance(s, ast.Return)]
+    last = rets[-1] if rets else None
+    qn = None
+    for s in walk_no_nested(fn):
+        if isinstance(s, ast.Assign) and floors and s.value is floors[0] and isinstance(s.targets[0], ast.Name):
+            qn = s.targets[0].id
+    good = last is not None and qn is not None and norm(last.value) in (f'{x} - {qn} * {y}', f'{x} - {y} * {qn}')
+    ctx.check(good, GMP, last or fn, q, 'the remainder is x - floor(x / y) * y in exact arithmetic', f'got {norm(last.value) if last is not None else None}')
+    # special operands: the table of Python's `%` on floats
+    rows = [
+        ({f'{x}.isnan or {y}.isnan': True}, 'nan', 'NaN operand -> NaN'),
+        ({f'{x}.isnan or {y}.isnan': False, f'{x}.isinf': True}, 'nan', 'infinite x -> NaN'),
+        ({f'{x}.isnan or {y}.isnan': False, f'{x}.isinf': False, f'{y}.isinf': False, f'{y}.is_zero()': True}, 'nan', 'zero y -> NaN'),
+        ({f'{x}.isnan or {y}.isnan': False, f'{x}.isinf': False, f'{y}.isinf': True, f'{x}.is_zero()': False, f'{x}.s == {y}.s': True}, x, 'infinite y, same sign -> x'),
+        ({f'{x}.isnan or {y}.isnan': False, f'{x}.isinf': False, f'{y}.isinf': True, f'{x}.is_zero()': False, f'{x}.s == {y}.s': False}, y, 'infinite y, opposite sign -> y'),
+    ]
+    for env, want, label in rows:
+        kind, val, st = decide(ctx.repo, GMP, fn.body, dict(env))
+        if want == 'nan':
+            good = kind == 'return' and isinstance(val, Opaque) and norm(val.node) == 'Float(isnan=True)'
+        else:
+            good = kind == 'return' and ((isinstance(val, Opaque) and norm(val.node) == want) or getattr(val, 'name', None) == want or repr(val) == want)
+        ctx.check(good, GMP, st or fn, q, f'special operands: {label}', f'source yields {kind} {val!r}')
+    for zero_env, label in (({f'{y}.isinf': True, f'{x}.is_zero()': True}, 'zero x, infinite y'), ({f'{y}.isinf': False, f'{y}.is_zero()': False, f'{x}.is_zero()': True}, 'zero x, finite y')):
+        env = {f'{x}.isnan or {y}.isnan': False, f'{x}.isinf': False}
+        env.update(zero_env)
+        kind, val, st = decide(ctx.repo, GMP, fn.body, env)
+        good = kind == 'return' and isinstance(val, Opaque) and norm(val.node) == f'Float(x={x}, s={y}.s)'
+        ctx.check(good, GMP, st or fn, q, f'special operands: {label} -> zero with the sign of y', f'source yields {kind} {val!r}')
+
+    q = 'MPFREngine._fdim'
+    fn = ctx.fn(GMP, q)
+    x, y, p, n = [a.arg for a in fn.args.args][1:5]
+    kind, val, st = decide(ctx.repo, GMP, fn.body, {f'{x}.isnan or {y}.isnan': True})
+    ctx.check(kind == 'return' and isinstance(val, Opaque) and norm(val.node) == 'Float(isnan=True)', GMP, st or fn, q, 'NaN operand -> NaN', f'source yields {kind} {val!r}')
+    kind, val, st = decide(ctx.repo, GMP, fn.body, {f'{x}.isnan or {y}.isnan': False, f'{x} > {y}': True})
+    good = kind == 'return' and isinstance(val, Opaque) and norm(val.node) == f'_mpfr_eval(gmp.sub, {x}, {y}, prec={p}, n={n})'
+    ctx.check(good, GMP, st or fn, q, 'x > y -> one MPFR subtraction x - y at the target (prec, n)', f'source yields {kind} {val!r}')
+    kind, val, st = decide(ctx.repo, GMP, fn.body, {f'{x}.isnan or {y}.isnan': False, f'{x} > {y}': False})
+    ctx.check(kind == 'return' and isinstance(val, Opaque) and norm(val.node) == 'Float()', GMP, st or fn, q, 'otherwise -> +0', f'source yields {kind} {val!r}')
+    caller = ctx.fn(GMP, 'MPFREngine.fdim')
+    last = caller.body[-1]
+    good = isinstance(last, ast.Return) and norm(last.value) == 'self._fdim(x, y, prec, n)'
+    ctx.check(good, GMP, last, 'MPFREngine.fdim', 'fdim hands the helper the target (prec, n)', f'got {norm(last)}')
+
+
+# ----------------------------------------------------------------------
 # C03.F3 round_params widened by the stochastic bits
 
 def f3_round_params(ctx: Ctx):
